@@ -834,8 +834,8 @@ def must_build(scn):
         hs_ = [s_['holds'][m] for s_ in srcs if m in s_.get('holds', {})]
         if not hs_ or any(h.get('o', 'ok') != 'ok' or h.get('variants') or 'text' in h for h in hs_):
             continue
-        if any(specs.get(d, {}).get('rootname') for d in sp.get('imports', ()) if d != m):
-            continue        # imports the root node of a module that calls it something else
+        if any(specs.get(d, {}).get('rootname') for d in list(sp.get('imports', ())) + [sp.get(k_) for k_ in ('defval_dep', 'shadow_dep', 'enumuse')] if d and d != m):
+            continue        # refers to the root node of a module that calls it something else
         ok.add(m)
     changed = True
     while changed:
